@@ -212,6 +212,22 @@ pub fn check_program(prog: &Program, seed: u64, thorough: bool, rep: &mut Report
         if !check_term(&mut ctx, rep, t, &built, "construction", &ws, &repls, &case, seed, &mut rng) {
             continue;
         }
+        // subjects of 100-300 characters (beyond any small-subject fast path): a background letter with the other
+        // letters planted sparsely; judged only when the reference automaton exists (the DP table is cubic)
+        if nontrivial && ctx.dfa(&built).is_ok() && (k % 3 == 0 || rng.chance(1, 4)) {
+            let mut medium: Vec<Vec<u32>> = Vec::new();
+            for _ in 0..2 {
+                let n = *rng.pick(&[99usize, 100, 101, 102, 127, 128, 129, 255, 256, 257]) + if rng.chance(1, 3) { rng.usize(40) } else { 0 };
+                let bg = *rng.pick(&letters);
+                let dens = 2 + rng.below(12);
+                let wd: Vec<u32> = (0..n).map(|_| if rng.chance(1, dens) { *rng.pick(&letters) } else { bg }).collect();
+                medium.push(wd);
+            }
+            rep.count("medium_subjects", medium.len() as u64);
+            if !check_term(&mut ctx, rep, t, &built, "construction", &medium, &repls[..2.min(repls.len())], &case, seed, &mut rng) {
+                continue;
+            }
+        }
         // ... and the term's own AST (isolates the matcher from constructor rewrites)
         let ws2: Vec<Vec<u32>> = ws.iter().filter(|_| rng.chance(1, 3)).cloned().collect();
         check_term(&mut ctx, rep, t, &r, "term", &ws2, &repls, &case, seed, &mut rng);
